@@ -333,6 +333,7 @@ structure SweepBlock where
   dz : Array Q
   impl : String
   tag : String
+  prec : Nat := 53
 
 def axisStats (T p d lo hi : Q) (outside : Bool) (a : SweepAcc) : SweepAcc :=
   if d == 0 || codeGuard T p d lo hi then a
@@ -372,13 +373,26 @@ def sweepCase (B : SweepBlock) (r : Line3 Q) (implFe implIs : Bool) (a : SweepAc
   let rBig := rayIval r big
   let rSmall := rayIval r small
   let T' := B.T
-  let faceMax := qabs b.min.x ≥ T' || qabs b.min.y ≥ T' || qabs b.min.z ≥ T' ||
-                 qabs b.max.x ≥ T' || qabs b.max.y ≥ T' || qabs b.max.z ≥ T'
-  let axFail (p d lo hi : Q) : Bool := d == 0 || !codeGuard T' p d lo hi
-  let allFail := axFail r.pos.x r.dir.x b.min.x b.max.x && axFail r.pos.y r.dir.y b.min.y b.max.y &&
-                 axFail r.pos.z r.dir.z b.min.z b.max.z
-  let gtag := if allFail then "all-components-fail-guard" else if faceMax then "box-face-at-TMAX"
-              else if gfail then "other-guardpath" else "other-noguard"
+  -- classification of the CAUSE of a flip (narrow classes; a new kind of flip gets a new name)
+  let thr := T' + T' / mkRat (2 * (2 ^ B.prec - 1)) 1            -- |x| ≥ thr rounds to infinity
+  let slack : Q := 1 - mkRat 1 (2 ^ 20)                           -- `|d| < T|dir|` within rounding of equality counts as failing
+  let far (p lo hi : Q) : Q := max (qabs (hi - p)) (qabs (lo - p))
+  let nz (d : Q) : Bool := !(d == 0)
+  let failS (p d lo hi : Q) : Bool :=
+    nz d && !(1 < qabs d || (qabs (hi - p) < T' * qabs d * slack && qabs (lo - p) < T' * qabs d * slack))
+  let tiny (d : Q) : Bool := nz d && T' * qabs d < 1
+  let ovfA (p d lo hi : Q) : Bool := nz d && far p lo hi ≥ thr
+  let faceA (p d lo hi : Q) : Bool := failS p d lo hi && far p lo hi * 2 ≥ T'
+  let allTinyA (p d lo hi : Q) : Bool := !nz d || (tiny d && failS p d lo hi)
+  let px := r.pos.x; let py := r.pos.y; let pz := r.pos.z
+  let dx := r.dir.x; let dy := r.dir.y; let dz := r.dir.z
+  let ovf := ovfA px dx b.min.x b.max.x || ovfA py dy b.min.y b.max.y || ovfA pz dz b.min.z b.max.z
+  let allTiny := allTinyA px dx b.min.x b.max.x && allTinyA py dy b.min.y b.max.y && allTinyA pz dz b.min.z b.max.z
+  let face := faceA px dx b.min.x b.max.x || faceA py dy b.min.y b.max.y || faceA pz dz b.min.z b.max.z
+  let anyFail := failS px dx b.min.x b.max.x || failS py dy b.min.y b.max.y || failS pz dz b.min.z b.max.z
+  let gtag := if ovf then "face-minus-pos-overflows" else if allTiny then "all-components-fail-guard"
+              else if face then "box-face-at-TMAX" else if anyFail then "other-guardpath" else "other-noguard"
+  let wtag (i : Ival) : String := if ovf then "" else if i.meetsWindow T then ":t-le-TMAX" else ":t-gt-TMAX"
   let desc : Unit → String := fun _ =>
     s!"{B.tag} box={vStr b.min};{vStr b.max} pos={vStr r.pos} dir={vStr r.dir} implFe={bStr implFe} implIs={bStr implIs} exactLine={bStr exact.isSome} exactRay={bStr exactR.isSome}"
   -- line
@@ -387,7 +401,7 @@ def sweepCase (B : SweepBlock) (r : Line3 Q) (implFe implIs : Bool) (a : SweepAc
     | some i =>
       let a := { a with robustLine := a.robustLine + 1 }
       if implFe then a
-      else a.bump s!"findEntryAndExitPoints:hit-to-miss:{gtag}:{if i.meetsWindow T then "t-le-TMAX" else "t-gt-TMAX"}" desc
+      else a.bump s!"findEntryAndExitPoints:hit-to-miss:{gtag}{wtag i}" desc
     | none =>
       if lBig.isNone then
         let a := { a with robustLine := a.robustLine + 1 }
@@ -398,7 +412,7 @@ def sweepCase (B : SweepBlock) (r : Line3 Q) (implFe implIs : Bool) (a : SweepAc
   | some i =>
     let a := { a with robustRay := a.robustRay + 1 }
     if implIs then a
-    else a.bump s!"intersects:hit-to-miss:{gtag}:{if i.meetsWindow T then "t-le-TMAX" else "t-gt-TMAX"}" desc
+    else a.bump s!"intersects:hit-to-miss:{gtag}{wtag i}" desc
   | none =>
     if rBig.isNone then
       let a := { a with robustRay := a.robustRay + 1 }
@@ -451,6 +465,7 @@ partial def readSweep (h : IO.FS.Stream) (B : SweepBlock) (acc : SweepAcc) : IO 
   | "T" :: v :: _ => readSweep h { B with T := parseQ v } acc
   | "eta" :: v :: _ => readSweep h { B with eta := parseQ v } acc
   | "tag" :: v :: _ => readSweep h { B with tag := v } acc
+  | "prec" :: v :: _ => readSweep h { B with prec := v.toNat! } acc
   | "box" :: vs =>
     let a := nums vs
     readSweep h { B with box := ⟨⟨a[0]!, a[1]!, a[2]!⟩, ⟨a[3]!, a[4]!, a[5]!⟩⟩ } acc
@@ -519,7 +534,7 @@ def main (args : List String) : IO Unit := do
       out.putStrLn s!"S {specLine (spec r b)}"
   | ["sweep"] =>
     let h ← IO.getStdin
-    let B0 : SweepBlock := ⟨tmaxDouble, mkRat 1 1000000000, ⟨⟨0,0,0⟩,⟨0,0,0⟩⟩, #[], #[], #[], #[], #[], #[], "", "-"⟩
+    let B0 : SweepBlock := ⟨tmaxDouble, mkRat 1 1000000000, ⟨⟨0,0,0⟩,⟨0,0,0⟩⟩, #[], #[], #[], #[], #[], #[], "", "-", 53⟩
     let a ← readSweep h B0 {}
     out.putStrLn s!"cases {a.cases}"
     out.putStrLn s!"lineHit {a.lineHit}"
